@@ -178,8 +178,20 @@ VReqLost(e) ==
      ELSE IF e.d.same /\ ObsProj(o.next.S, r.si) # ObsProj(H.S, r.si) THEN V("C31_agree_state_not_changed", H)
      ELSE V("", o.next)
 
+\* slot_readv through the client's IStorageServer adapter over HTTP: the answer of Storage.tla's ReadvRes, which is also
+\* what the directly driven twin answers (C31); every share reads back its own bytes at the requested offsets (C23)
+VAReadv(e) ==
+  LET shs == ToSet(e.shares)
+      want == ReadvRes(H.S, e.si, shs, e.rv)
+      NormR(r) == [sh \in DOMAIN r |-> r[sh]]
+  IN IF NormR(e.d) # want THEN V("C31_direct_result", H)
+     ELSE IF e.how # "ok" THEN V("C31_adapter_readv_failed", H)
+     ELSE IF NormR(e.res) # want THEN V("C31_adapter_readv", H)
+     ELSE V("", H)
+
 Verdict(e) ==
   CASE e.ev = "Req"     -> VReq(e)
+    [] e.ev = "AReadv"  -> VAReadv(e)
     [] e.ev = "ReqLost" -> VReqLost(e)
     [] e.ev = "ClientRead0" -> VClientRead0(e)
     [] e.ev = "Advance" -> VAdvance(e)
